@@ -325,10 +325,14 @@ package fosite
 //@ func (*Request).AppendRequestedScope
 //@   modifies a.RequestedScope
 //@   ensures [C12.request-scope-sets] forall x string :: insl(a.RequestedScope, x) <==> (insl(old(a.RequestedScope), x) || x == scope)
+//@   ensures [C12.request-scope-sets] insl(old(a.RequestedScope), scope) ==> a.RequestedScope == old(a.RequestedScope)
+//@   ensures [C12.request-scope-sets] !insl(old(a.RequestedScope), scope) ==> len(a.RequestedScope) == len(old(a.RequestedScope)) + 1 && a.RequestedScope[len(old(a.RequestedScope))] == scope && (forall k int :: 0 <= k && k < len(old(a.RequestedScope)) ==> a.RequestedScope[k] == old(a.RequestedScope)[k])
 //@   invariant loop#1 [C12.request-scope-sets] $i <= len(a.RequestedScope) && a.RequestedScope == old(a.RequestedScope) && (forall j int :: 0 <= j && j < $i ==> a.RequestedScope[j] != scope)
 //@ func (*Request).AppendRequestedAudience
 //@   modifies a.RequestedAudience
 //@   ensures [C12.request-scope-sets] forall x string :: insl(a.RequestedAudience, x) <==> (insl(old(a.RequestedAudience), x) || x == audience)
+//@   ensures [C12.request-scope-sets] insl(old(a.RequestedAudience), audience) ==> a.RequestedAudience == old(a.RequestedAudience)
+//@   ensures [C12.request-scope-sets] !insl(old(a.RequestedAudience), audience) ==> len(a.RequestedAudience) == len(old(a.RequestedAudience)) + 1 && a.RequestedAudience[len(old(a.RequestedAudience))] == audience && (forall k int :: 0 <= k && k < len(old(a.RequestedAudience)) ==> a.RequestedAudience[k] == old(a.RequestedAudience)[k])
 //@   invariant loop#1 [C12.request-scope-sets] $i <= len(a.RequestedAudience) && a.RequestedAudience == old(a.RequestedAudience) && (forall j int :: 0 <= j && j < $i ==> a.RequestedAudience[j] != audience)
 //@ func (*Request).GrantScope
 //@   modifies a.GrantedScope
